@@ -33,7 +33,10 @@ pub fn emit(event: &str, fields: &[(&str, serde_json::Value)]) {
     }
     EVENTS.with(|e| {
         let mut buf = e.borrow_mut();
-        obj.insert("seq".to_string(), serde_json::Value::from(buf.len() as u64 + 1));
+        obj.insert(
+            "seq".to_string(),
+            serde_json::Value::from(buf.len() as u64 + 1),
+        );
         buf.push(serde_json::Value::Object(obj).to_string());
     });
 }
